@@ -681,6 +681,22 @@ p("c17-p-order-reverse-builtin", "C17", ROFI,
   "        if reverse:\n            new_order.reverse()\n        return new_order\n\n    def order_random",
   "        if reverse:\n            new_order = new_order[::-1]\n        return new_order\n\n    def order_random")
 
+IGF = "pyformlang/indexed_grammar/indexed_grammar.py"
+b("c17-edge-case-silent-mark", "C17", IGF,
+  "            if frozenset() not in self.marked[rule.left_term]:\n                was_modified = True\n                self.marked[rule.left_term].add(frozenset())",
+  "            self.marked[rule.left_term].add(frozenset())", "new-mark-raises-the-change-flag")
+b("c17-addrec-silent-mark", "C17", IGF,
+  "                marked_left.add(new_temp)\n                res = True\n", "                marked_left.add(new_temp)\n",
+  "new-mark-raises-the-change-flag")
+b("c17-deferred-mark-silent", "C17", IGF,
+  "                if temp not in self.marked[rule.left_term]:\n                    was_modified = True\n                    if rule.left_term == rule.right_terms[0]:",
+  "                if temp not in self.marked[rule.left_term]:\n                    if rule.left_term == rule.right_terms[0]:",
+  "new-mark-raises-the-change-flag")
+p("c17-p-flag-after-mark", "C17", IGF,
+  "                was_modified = True\n                self.marked[rule.left_term].add(frozenset())",
+  "                self.marked[rule.left_term].add(frozenset())\n                was_modified = True")
+p("c17-p-flag-renamed-or", "C17", IGF,
+  "                marked_left.add(new_temp)\n                res = True\n", "                marked_left.add(new_temp)\n                res |= True\n")
 # ----------------------------------------------------------------------------- C18
 FCF = "pyformlang/fcfg/fcfg.py"
 FSF = "pyformlang/fcfg/feature_structure.py"
